@@ -169,15 +169,14 @@ class Laws:
         return T, S
 
     def _relation(self, T, S):
+        """How the classes of the smallest disagreeing pair are related *according to the type system itself*."""
         from pynguin.analyses import typesystem as tsm
 
         if isinstance(T, tsm.Instance) and isinstance(S, tsm.Instance):
-            a, b = S.type.raw_type, T.type.raw_type
-            if a is b:
+            if S.type == T.type:
                 return "same-class:args-not-equivalent" if T.args or S.args else "same-class"
-            if isinstance(a, type) and isinstance(b, type) and (self.tp.nominal_subclass(a, b) or self.tp.tower_subclass(a, b)):
-                return "subclass"
-            return "unrelated-classes"
+            okc, sub = self.call("is_subclass", S.type, T.type)
+            return "subclass" if (okc and sub) else "unrelated-classes"
         return "-"
 
     def distance(self, T, S):
@@ -282,7 +281,7 @@ def run_hierarchy(ctx, manifest, rng, triples, note=None):
 
     from pynguin.analyses import typesystem as tsm
 
-    case = {"seed": manifest["seed"], "index": manifest["index"], "tag": manifest["tag"], "module": manifest["sut"], "forced": note}
+    case = {"gen": manifest["gen"], "module": manifest["sut"], "forced": note}
     cluster = tp.build_cluster(manifest)
     ts = cluster.type_system
     tp.clear_type_caches()
@@ -368,3 +367,16 @@ def run_chunk(spec, ctx):
         index = spec["part"] * 1000 + j
         m = modgen.generate(seed, index, ctx.scratch, tag="c25r", size=rng.choice(["small", "medium", "large"]))
         run_hierarchy(ctx, m, rng, spec["triples"])
+
+
+def replay(w, ctx):
+    """Re-generate the witness' hierarchy and re-run the laws on it (directed operands + fresh random triples)."""
+    import logging
+
+    from vlib import modgen
+
+    logging.disable(logging.CRITICAL)
+    gen = dict(w["case"]["gen"], tag=w["case"]["gen"].get("tag", "") + "rp")
+    m = modgen.regenerate(gen, ctx.scratch)
+    cluster, _pool, laws = run_hierarchy(ctx, m, random.Random(f"c25-replay-{w.get('seed', 0)}"), 2000)
+    directed_cases(ctx, cluster, laws)
